@@ -33,6 +33,15 @@ def cases(tier, rng, boost=1):
     yield _mk([[0, 1, 2, 3, 4, 5] * 5], [1, 2], None, src='corpus', kind='periodic')
     yield _mk([[0, 1, 0, 1, 1, 0, 0, 1], [2, 3, 3, 2, 2, 3, 2, 2, 3]], [1, 2], None, src='corpus', kind='reducible')
     yield _mk([[0, 1, 1, 0, 1], [0, 0, 1, 0, 1, 1, 0, 0, 0, 1, 0, 1, 1, 1, 0, 1, 0, 0, 1, 1]], [8, 1, 2], None, src='corpus', kind='shortfirst')
+    # many states, few requested timescales, a strongly negative eigenvalue (two states visited alternately)
+    brng = core.Rng(3)
+    for nbig, nts_big in ((80, 4), (70, 1), (130, 6)):
+        t = []
+        for _i in range(40):
+            t += list(range(2, nbig))
+            t += [0, 1] * brng.randint(2, 5)
+            t += [brng.randrange(2, nbig) for _ in range(30)]
+        yield _mk([t], [1, 3], nts_big, src='corpus', kind='big_flipflop')
     n = {'quick': 250, 'thorough': 4000, 'search': 800}[tier] * boost
     for _ in range(n):
         kind = rng.choice(['chain', 'chain', 'alternating', 'cycle', 'periodic', 'reducible', 'lumped', 'solver'])
@@ -105,6 +114,18 @@ def _solver_ok(M, nvals=None):
     n_expect = len(M) if nvals is None else nvals
     if len(lv) != n_expect or len(rv) != n_expect:
         return False, 'count'
+    # the returned values must be the n_expect LARGEST eigenvalues: independent dense reference, compared as sorted lists
+    ref = np.linalg.eigvals(M)
+
+    def srt(vals):
+        c = np.asarray(vals, dtype=complex)
+        return sorted(((round(float(z.real), 7), abs(float(z.imag))) for z in c), reverse=True)
+    top = srt(ref)[:n_expect]
+    tol = 1e-6 * scale
+    for vals in (lv, rv):
+        got = srt(vals)
+        if any(abs(a[0] - b[0]) > tol or abs(a[1] - b[1]) > tol for a, b in zip(got, top)):
+            return False, 'not the largest eigenvalues'
     if not (np.allclose(np.sort_complex(np.asarray(linalg.left_eigenvalues(M, nvals), dtype=complex)), np.sort_complex(np.asarray(lv, dtype=complex)))):
         return False, 'eigenvalues vs eigenvectors'
     return True, ''
@@ -135,6 +156,8 @@ def real(case):
             T, _ = arg.estimate_markov_model(lag)
             ev = np.asarray(linalg.left_eigenvalues(T, nvals=nts + 1), dtype=complex)
             ok, w = _solver_ok(T)
+            sol_ok, why = sol_ok and ok, why or w
+            ok, w = _solver_ok(T, nts + 1)
             sol_ok, why = sol_ok and ok, why or w
             eigs, refs = [], []
             for lam in ev[1:]:
